@@ -471,6 +471,21 @@ def runNumeric (lines : List String) : IO Unit := do
       a ← truncCheck a "C19" s!"chi {i} {j} {k} {l} {n1} {n2} {n3}" s!"chi_{i}{j}{k}{l}({n1},{n2},{n3})" [v]
              (24.0 * s.truncEps * Float.ofNat (s.dim * s.dim * s.dim * s.dim) * s.beta * s.beta * s.beta)
       a := remember a s!"chi {i} {j} {k} {l} {n1} {n2} {n3}" [v]
+      -- exchange symmetries of the implementation's own values (C13, first sentence)
+      if !a.truncated then
+        match lookupSeen a s!"chi {j} {i} {k} {l} {n2} {n1} {n3}" with
+        | some [u] =>
+          a := a.bump "exchange12_checks"
+          if !(i == j && n1 == n2) && !closeC v (-u) (1.0e-8 * (1.0 + tot)) then
+            a ← fail a "C13" s!"chi_{j}{i}{k}{l}({n2},{n1};{n3}) = ({u.re},{u.im}) is not -chi_{i}{j}{k}{l}({n1},{n2};{n3}) = ({-v.re},{-v.im})"
+        | _ => pure ()
+        let n4 := (int! n1) + (int! n2) - (int! n3)
+        match lookupSeen a s!"chi {i} {j} {l} {k} {n1} {n2} {n4}" with
+        | some [u] =>
+          a := a.bump "exchange34_checks"
+          if !(k == l && n4 == int! n3) && !closeC v (-u) (1.0e-8 * (1.0 + tot)) then
+            a ← fail a "C13" s!"chi_{i}{j}{l}{k}({n1},{n2};{n4}) = ({u.re},{u.im}) is not -chi_{i}{j}{k}{l}({n1},{n2};{n3}) = ({-v.re},{-v.im})"
+        | _ => pure ()
       if amb then a := { a with ambiguous := a.ambiguous + 1 }
       else if !a.truncated && !closeC v x (1.0e-8 * (1.0 + tot)) then
         a ← fail a "C02" s!"chi_{i}{j}{k}{l}({n1},{n2};{n3}) = ({v.re},{v.im}) differs from the definition ({x.re},{x.im}) by {(v - x).abs}"
